@@ -1,4 +1,8 @@
 #include "sqf_parser.hpp"
+#include <limits>
+#include <cstdlib>
+#include <cmath>
+#include <cerrno>
 #include "tokenizer.hpp"
 #include "parser.tab.hh"
 
@@ -100,8 +104,17 @@ void ::sqf::parser::sqf::parser::to_assembly(std::string_view contents, const ::
         try
         {
             auto str = std::string(node.token.contents);
-            if (str[0] == '$') { str = "0x"s.append(str.substr(1)); }
-            auto hexnum = (int64_t)std::stol(str, nullptr, 16);
+            // `$FF` or `0xFF`: the digits are summed up as a floating point number, so that literals beyond 64 bit
+            // still denote their (rounded) value; only what exceeds a script number is out of range
+            double hexnum = 0;
+            for (size_t i = (str[0] == '$' ? 1 : 2); i < str.size(); ++i)
+            {
+                char c = str[i];
+                int digit = c >= '0' && c <= '9' ? c - '0' : c >= 'a' && c <= 'f' ? c - 'a' + 10 : c >= 'A' && c <= 'F' ? c - 'A' + 10 : -1;
+                if (digit < 0) { break; }
+                hexnum = hexnum * 16 + digit;
+            }
+            if (hexnum > static_cast<double>(std::numeric_limits<float>::max())) { throw std::out_of_range("hex literal"); }
             auto inst = std::make_shared<::sqf::opcodes::push>(
                 ::sqf::runtime::value(
                     std::make_shared<::sqf::types::d_scalar>(
@@ -122,7 +135,13 @@ void ::sqf::parser::sqf::parser::to_assembly(std::string_view contents, const ::
     {
         try
         {
-            auto inst = std::make_shared<::sqf::opcodes::push>(::sqf::runtime::value(std::make_shared<::sqf::types::d_scalar>((double)std::stod(std::string(node.token.contents)))));
+            // straight to single precision (no double rounding); a literal too small for a float is (nearly) zero, only one that is too large is out of range
+            auto text = std::string(node.token.contents);
+            errno = 0;
+            char* text_end = nullptr;
+            float parsed = std::strtof(text.c_str(), &text_end);
+            if (text_end == text.c_str() || (errno == ERANGE && std::isinf(parsed))) { throw std::out_of_range("number literal"); }
+            auto inst = std::make_shared<::sqf::opcodes::push>(::sqf::runtime::value(std::make_shared<::sqf::types::d_scalar>(parsed)));
             inst->diag_info({ node.token.line, node.token.column, node.token.offset, { *node.token.path, {} }, create_code_segment(contents, node.token.offset, node.token.contents.length()) });
             set.push_back(inst);
         }
